@@ -39,6 +39,21 @@ theorem embS_pos (s : Stmt) (p p' : Int) (c : Node) (h : EmbS s (.stmt p c)) : E
     obtain ⟨p0, q, he⟩ := h
     cases he
     exact ⟨p', q, rfl⟩
+  | put m v lv =>
+    simp only [EmbS] at h ⊢
+    obtain ⟨p0, q, l, r, he, h1, h2⟩ := h
+    cases he
+    exact ⟨p', q, l, r, rfl, h1, h2⟩
+  | delete t =>
+    simp only [EmbS] at h ⊢
+    obtain ⟨p0, q, l, he, h1⟩ := h
+    cases he
+    exact ⟨p', q, l, rfl, h1⟩
+  | hilite t =>
+    simp only [EmbS] at h ⊢
+    obtain ⟨p0, q, l, he, h1⟩ := h
+    cases he
+    exact ⟨p', q, l, rfl, h1⟩
   | _ => simp [EmbS] at h
 
 /-- the components `withParts` extracts from the three header pieces of an embedded `repeat with` -/
@@ -73,9 +88,15 @@ theorem embT_tgtL1 : (s : Stmt) → (x : Src) → EmbSrc1 s x → ∀ (o : Int),
   | .exit, x, h, o => by
     obtain ⟨sm, p, rfl, _, he, _⟩ := h
     exact ⟨_, rfl, embS_pos _ p _ _ he⟩
-  | .put .., x, h, _ => by obtain ⟨sm, p, rfl, ho, he, hp⟩ := h; exact absurd he (by simp [EmbS])
-  | .delete .., x, h, _ => by obtain ⟨sm, p, rfl, ho, he, hp⟩ := h; exact absurd he (by simp [EmbS])
-  | .hilite .., x, h, _ => by obtain ⟨sm, p, rfl, ho, he, hp⟩ := h; exact absurd he (by simp [EmbS])
+  | .put m v lv, x, h, o => by
+    obtain ⟨sm, p, rfl, _, he, _⟩ := h
+    exact ⟨_, rfl, embS_pos _ p _ _ he⟩
+  | .delete t, x, h, o => by
+    obtain ⟨sm, p, rfl, _, he, _⟩ := h
+    exact ⟨_, rfl, embS_pos _ p _ _ he⟩
+  | .hilite t, x, h, o => by
+    obtain ⟨sm, p, rfl, _, he, _⟩ := h
+    exact ⟨_, rfl, embS_pos _ p _ _ he⟩
   | .mcall .., x, h, _ => by obtain ⟨sm, p, rfl, ho, he, hp⟩ := h; exact absurd he (by simp [EmbS])
   | .tell .., x, h, _ => by obtain ⟨sm, p, rfl, ho, he, hp⟩ := h; exact absurd he (by simp [EmbS])
   | .repeatIn .., x, h, _ => by obtain ⟨sm, p, rfl, ho, he, hp⟩ := h; exact absurd he (by simp [EmbS])
